@@ -130,6 +130,8 @@ def sabs(x):
 
 
 def sexp(x):
+    if isinstance(x, np.ndarray) and x.dtype == object:
+        return np.array([sexp(t) for t in x.ravel()], dtype=object).reshape(x.shape).view(SymArray)
     if isinstance(x, Expr):
         return Expr(f"(Rexp {x.s})", lambda env, a=x: math.exp(a.v(env)))
     return np.exp(x)
@@ -1092,4 +1094,84 @@ def selfcheck_strain_increment(t, reps=20, seed=0):
         w = np.linalg.eigvalsh((L + L.T) / 2)
         if not np.isclose(tree_eval(t["tree"], lambda v: v, {"dt": dt, "w": w}), U.strain_increment(dt, L), rtol=1e-13):
             return ["strain_increment"]
+    return []
+
+
+# ------------------------------------------------------------------ stats.py: the five spherical counting kernels (C20)
+KERNEL_NAMES = ("kamb_count", "schmidt_count", "exponential_kamb", "linear_inverse_kamb", "square_inverse_kamb")
+KERNEL_LEAN = {"kamb_count": "kambCount", "schmidt_count": "schmidtCount", "exponential_kamb": "exponentialKamb",
+               "linear_inverse_kamb": "linearInverseKamb", "square_inverse_kamb": "squareInverseKamb"}
+
+
+def trace_kernels(n=2):
+    """each entry of stats.SPHERICAL_COUNTING_KERNELS on a symbolic array of `n` cosines, symbolic σ, axial True and False;
+    the comparisons with the counting radius fork (boolean masks and `.astype(float)` become decision trees)"""
+    from pydrex import stats as S
+
+    real_np = S.np
+    S.np = NpShim(real_np)
+    out = {}
+    try:
+        if set(S.SPHERICAL_COUNTING_KERNELS) != set(KERNEL_NAMES):
+            raise TypeError(f"translator: the kernel table changed: {sorted(S.SPHERICAL_COUNTING_KERNELS)}")
+        for name in KERNEL_NAMES:
+            for axial in (True, False):
+                def run(name=name, axial=axial):
+                    c = sym_vector("c", n).view(SymArray)
+                    kw = {} if name == "schmidt_count" else {"σ": sym_scalar("σ")}
+                    cnt, units = S.SPHERICAL_COUNTING_KERNELS[name](c, axial=axial, **kw)
+                    return (np.array(cnt, dtype=object), units)
+                out[(name, axial)] = explore(run)
+    finally:
+        S.np = real_np
+    return out
+
+
+def _kernel_tree_lean(tree):
+    if tree[0] == "leaf":
+        cnt, units = tree[1]
+        return "([" + ", ".join(Expr.of(x).s for x in np.ravel(cnt)) + "], " + Expr.of(units).s + ")"
+    return f"(if {tree[1].s} then {_kernel_tree_lean(tree[2])} else {_kernel_tree_lean(tree[3])})"
+
+
+def _kernel_tree_eval(tree, env):
+    while tree[0] == "if":
+        tree = tree[2] if tree[1].v(env) else tree[3]
+    cnt, units = tree[1]
+    return [Expr.of(x).v(env) for x in np.ravel(cnt)], Expr.of(units).v(env)
+
+
+def emit_kernels(traced, path=None):
+    lines = ["-- GENERATED on every run by harness/trace/tracer.py from /repo/src/pydrex/stats.py -- do not edit",
+             "import ModelR.Density", "noncomputable section", "namespace ModelR.Density", ""]
+    for (name, axial), tree in traced.items():
+        lines += [f"/-- `{name}(c, σ, axial={axial})` on two cosines: (un-summed counts, scale) -/",
+                  f"def traced_{KERNEL_LEAN[name]}_{'axial' if axial else 'polar'} (σ : ℝ) (c : ℕ → ℝ) : List ℝ × ℝ :=",
+                  "  " + _kernel_tree_lean(tree), ""]
+    lines += ["end ModelR.Density", ""]
+    text = "\n".join(lines)
+    path = path or (GEN / "TracedKernels.lean")
+    if not path.exists() or path.read_text() != text:
+        path.write_text(text)
+    return text
+
+
+def selfcheck_kernels(traced, reps=12, seed=0):
+    from pydrex import stats as S
+
+    rng = np.random.default_rng(seed)
+    for _ in range(reps):
+        env = {"c": [float(x) for x in rng.uniform(-1, 1, 2)] if rng.random() < 0.5 else [float(x) for x in rng.uniform(0.9, 1, 2)],
+               "σ": float(rng.uniform(0.3, 12))}
+        for (name, axial), tree in traced.items():
+            kw = {} if name == "schmidt_count" else {"σ": env["σ"]}
+            with np.errstate(all="ignore"):
+                cnt, units = S.SPHERICAL_COUNTING_KERNELS[name](np.array(env["c"]), axial=axial, **kw)
+            try:
+                mc, mu = _kernel_tree_eval(tree, env)
+            except ValueError:      # sqrt of a negative number in the traced expression: the implementation gives NaN
+                mc, mu = list(np.ravel(cnt)), float("nan")
+            if len(mc) != len(np.ravel(cnt)) or not np.allclose(mc, np.ravel(cnt), rtol=1e-12, atol=0) \
+                    or not (np.isclose(mu, units, rtol=1e-12) or (np.isnan(mu) and np.isnan(units))):
+                return [f"{name}(axial={axial})"]
     return []
